@@ -29,6 +29,9 @@ def dispatch(pid, tier, replay):
     if pid == "C08":
         import statutory_checks
         return statutory_checks.c08(tier)
+    if pid == "C09":
+        import content_checks
+        return content_checks.c09(tier)
     raise common.MachineryError("no check for " + pid)
 
 
